@@ -320,6 +320,10 @@ def _spec_helpers():
             I.ctx.fact(c(t) * c(t) + s_(t) * s_(t) == 1)
         return mk(z3.And(c(A + B) == c(A) * c(B) - s_(A) * s_(B), s_(A + B) == s_(A) * c(B) + c(A) * s_(B)))
 
+    @reg("origin")
+    def origin(I, args, kw):
+        return Sym(z3.Bool("is_origin"), "bool")
+
     @reg("same_phase")
     def same_phase(I, args, kw):
         """Both values are complex exponentials exp(i a), exp(i b): a == b (sufficient for equality; goal position only)."""
